@@ -19,29 +19,46 @@ def _validate_graph_isolation(project: WBS):
                 )
 
 
+def _leaves(task: Task):
+    if len(task.children) == 0:
+        return [task]
+    return [t for t in task.all_children if len(t.children) == 0]
+
+
+def _waits_for(leaf: Task):
+    # a leaf waits for the leaves of the predecessors of the task itself and of all its parents
+    return [w for x in [leaf] + list(leaf.all_parents) for p in x.predecessors for w in _leaves(p)]
+
+
 def _check_loops(project: WBS):
     validated = set()
     for t in project.tasks:
-        _check_loops_from_task(t, set(), validated)
+        _check_loops_from_task(t, [], validated, lambda x: x.predecessors)
+
+    # a cycle can also close through the hierarchy: a task waiting for a task that waits for one of its parents
+    validated = set()
+    for t in project.tasks:
+        if len(t.children) == 0:
+            _check_loops_from_task(t, [], validated, _waits_for)
 
 
-def _check_loops_from_task(task: Task, visited_tasks: Set[int], validated: Set[int]):
-    if task.id in validated:
+def _check_loops_from_task(task: Task, visited_tasks: List[Task], validated: Set[int], waits_for):
+    if id(task) in validated:
         return
 
-    if task.id in visited_tasks:
+    if any(t is task for t in visited_tasks):
         raise RuntimeError(
             "Found circle",
-            [str(t) + "-->" for t in visited_tasks] + [str(task.id) + ":" + task.name]
+            [str(t.id) + "-->" for t in visited_tasks] + [str(task.id) + ":" + str(task.name)]
         )
 
-    visited_tasks.add(task.id)
+    visited_tasks.append(task)
 
-    for s in task.predecessors:
-        _check_loops_from_task(s, visited_tasks, validated)
+    for s in waits_for(task):
+        _check_loops_from_task(s, visited_tasks, validated, waits_for)
 
-    visited_tasks.remove(task.id)
-    validated.add(task.id)
+    visited_tasks.pop()
+    validated.add(id(task))
 
 
 @dataclass(frozen=True)
